@@ -265,6 +265,27 @@ def gen_purge(r):
     return case_str(n, r.below(2), 0, threads, sched)
 
 
+def gen_purge_paths(r):
+    """two path-ids of one peer on one prefix, a GR (or LLGR) cycle in which the peer re-announces only one of
+    them, then the purge: the other path must be withdrawn although its sibling survives"""
+    n = r.pick([1, 2])
+    k, j = r.below(n), r.pick([0, 1, 2])
+    keep = r.below(2)
+    ops = ["up", "(ins %d %d 0 %d)" % (k, j, 1 + r.below(9)), "(ins %d %d 1 %d)" % (k, j, 1 + r.below(9))]
+    if r.chance(1, 3):
+        ops.append("(ins %d %d %d %d)" % (r.below(n), r.pick([0, 1, 2]), r.below(2), 1 + r.below(9)))
+    re = "(ins %d %d %d %d)" % (k, j, keep, 1 + r.below(9))
+    ops += r.pick([["gdown", "up", re, "purge"], ["gdown", "up", re, "purge"], ["gdown", "llgr", "up", re, "lpurge"],
+                   ["gdown", "up", re, "llgr", "lpurge"], ["gdown", "up", re, "purge", "(rem %d %d %d)" % (k, j, keep)],
+                   ["gdown", "up", re, "dropfam"]])
+    sub = r.pick([["(sub t)"], ["(sub t)"], ["(sub f)"], ["(sub t)", "unsub", "(sub t)"]])
+    gran = r.below(2)
+    lead = r.below(len(ops) * (3 if gran else 2) + 2)
+    sched = [0] * lead + [1] * (2 + r.below(3)) + [r.below(2) for _ in range(6)] + [0] * 10
+    return "(case (cfg %d %d 0) (threads (%s %s) (s %s)) (sched %s))" % (
+        n, gran, r.pick(["wa", "wa", "w"]), " ".join(ops), " ".join(sub), " ".join(map(str, sched)))
+
+
 def gen_sequential_points(r):
     """one writer history, a subscriber that subscribes after exactly p writer segments (all p)."""
     n = r.pick([1, 2, 3])
@@ -392,8 +413,10 @@ def gen(seed, n, tier):
             out.append(gen_softreset(r))
         elif x < 84:
             out.append(gen_peers(r))
-        elif x < 90:
+        elif x < 88:
             out.append(gen_purge(r))
+        elif x < 90:
+            out.append(gen_purge_paths(r))
         elif x < 97:
             out += gen_sequential_points(r)
         else:
